@@ -71,6 +71,21 @@ def gen_input(rnd, root):
         if len(lines) > 60:
             text = "\n".join(lines[:60]) + "\n"
         files.append([os.path.join(root, f"f{i}.mac"), text])
+    if nfiles >= 2 and rnd.random() < 0.4:
+        # diagnostics that mention two files: one exported name declared in both, at unrelated depths of files of unrelated length;
+        # a branch from one file to a label of the other
+        a, b = rnd.sample(range(nfiles), 2)
+        decl = lambda: rnd.choice(["twice::\n", "twice:: nop\n", "twice == 5\n", ".extern twice\ntwice: .word 0\n", "twice = 7\n.extern twice\n"])
+        shapes = rnd.choice([(True, False), (False, True), (rnd.random() < 0.5, rnd.random() < 0.5)])
+        for idx, short in ((a, shapes[0]), (b, shapes[1])):
+            lines = files[idx][1].split("\n")
+            if short:
+                lines = lines[:rnd.randrange(0, 3)]
+            pos = rnd.randrange(len(lines) + 1) if rnd.random() < 0.3 else len(lines)
+            lines[pos:pos] = decl().rstrip("\n").split("\n")
+            files[idx][1] = "\n".join(lines) + ("\n" if rnd.random() < 0.8 else "")
+        if rnd.random() < 0.3:
+            files[a][1] += rnd.choice(["sob r1, twice\n", "br twice\n", "bne twice + 2\n"])
     return files, how
 
 
